@@ -55,7 +55,7 @@ def strip_operand_brackets(keys):
             elif k == ("punct", ")") and stack:
                 pairs.append((stack.pop(), i))
         for a, b in pairs:
-            if a + 1 < len(out) and out[a + 1] in (("word", "SELECT"), ("word", "WITH")):
+            if a + 1 < len(out) and out[a + 1] in (("word", "SELECT"), ("word", "WITH")) and not _compound(out[a + 1:b]):
                 after = out[b + 1] if b + 1 < len(out) else None
                 before = out[a - 1] if a > 0 else None
                 before2 = out[a - 2] if a > 1 else None
@@ -65,6 +65,130 @@ def strip_operand_brackets(keys):
                     changed = True
                     break
     return out
+
+
+def _compound(keys):
+    """does the token list hold a set operator outside every bracket?"""
+    d = 0
+    for k in keys:
+        if k == ("punct", "("):
+            d += 1
+        elif k == ("punct", ")"):
+            d -= 1
+        elif d == 0 and k in (("word", "UNION"), ("word", "INTERSECT"), ("word", "EXCEPT"), ("word", "MINUS")):
+            return True
+    return False
+
+
+def sqlite_compound_operands(keys):
+    """SQLite has no bracketed operands: an operand that must stay one unit (a compound, or a select with ORDER BY / LIMIT / OFFSET of its
+    own) is written SELECT * FROM ( <unit> ) without an alias. Read it as ( <unit> )."""
+    out = list(keys)
+    setw = {("word", "UNION"), ("word", "INTERSECT"), ("word", "EXCEPT"), ("word", "ALL")}
+    i = 0
+    while i + 3 < len(out):
+        if out[i] == ("word", "SELECT") and out[i + 1] == ("op", "*") and out[i + 2] == ("word", "FROM") and out[i + 3] == ("punct", "("):
+            d, j = 0, i + 3
+            while j < len(out):
+                if out[j] == ("punct", "("):
+                    d += 1
+                elif out[j] == ("punct", ")"):
+                    d -= 1
+                    if d == 0:
+                        break
+                j += 1
+            prev = out[i - 1] if i > 0 else None
+            nxt = out[j + 1] if j + 1 < len(out) else None
+            is_operand = prev in setw or nxt in setw
+            if is_operand and (prev is None or prev in setw or prev == ("punct", "(")) and (nxt is None or nxt == ("punct", ")") or nxt in setw or nxt in (("word", "ORDER"), ("word", "LIMIT"), ("word", "OFFSET"))):
+                del out[i:i + 3]
+                continue
+        i += 1
+    return out
+
+
+# ---- (d) set-operand wrapping keeps the grouping the calls express ---------------------------------------------------------------
+
+SETOPS = ("union", "union_all", "intersect", "except_of")
+GROUPING_SHAPES = ("right_nested", "chain", "right_nested_then_chain", "double_nested", "right_nested_in_from", "right_nested_in_where")
+
+
+def _sel(t, col="a"):
+    return [["from_", [["src", t]]], ["select", [["col", t, col]]]]
+
+
+GROUPING_SOURCES = {k: ["tbl", k, None, None] for k in ("ta", "tb", "tc", "td", "te")}
+
+
+def grouping_program(shape, op1, op2):
+    def Qp(steps):
+        return {"cls": "inherit", "sources": {}, "steps": steps}
+    a, b, c, d = (_sel(t) for t in ("ta", "tb", "tc", "td"))
+    if shape == "chain":
+        steps = a + [[op1, [["q", Qp(b)]]], [op2, [["q", Qp(c)]]]]
+    elif shape == "right_nested":
+        steps = a + [[op1, [["q", Qp(b + [[op2, [["q", Qp(c)]]]])]]]]
+    elif shape == "right_nested_then_chain":
+        steps = a + [[op1, [["q", Qp(b + [[op2, [["q", Qp(c)]]]])]]], [op2, [["q", Qp(d)]]]]
+    elif shape == "double_nested":
+        steps = a + [[op1, [["q", Qp(b + [[op2, [["q", Qp(c + [[op1, [["q", Qp(d)]]]])]]]])]]]]
+    elif shape == "right_nested_in_from":
+        inner = Qp(a + [[op1, [["q", Qp(b + [[op2, [["q", Qp(c)]]]])]]]])
+        steps = [["from_", [["q", inner]]], ["select", [["py", "a"]]]]
+    elif shape == "right_nested_in_where":
+        inner = Qp(a + [[op1, [["q", Qp(b + [[op2, [["q", Qp(c)]]]])]]]])
+        steps = [["from_", [["src", "te"]]], ["select", [["py", "a"]]], ["where", [["in", ["col", "te", "a"], ["q", inner]]]]]
+    else:
+        raise HarnessError(shape)
+    return {"cls": "generic", "sources": GROUPING_SOURCES, "steps": steps}
+
+
+def grouping_cases():
+    for shape in GROUPING_SHAPES:
+        for op1 in SETOPS:
+            for op2 in SETOPS:
+                yield {"mode": "grouping", "shape": shape, "op1": op1, "op2": op2}
+
+
+def check_grouping(case):
+    p = grouping_program(case["shape"], case["op1"], case["op2"])
+    base = None
+    out = []
+    for cls in CTXS:
+        for par in (False, True):
+            try:
+                sql, _ = render(dict(p, cls=cls), cls, par)
+            except Exception as e:
+                out.append((mksig("setop_grouping", cls, "raises", type(e).__name__), "%s %s/%s: %r" % (case["shape"], case["op1"], case["op2"], e)))
+                return out
+            keys = norm(lex.lex(sql, cls))
+            if cls == "sqlite":
+                keys = sqlite_compound_operands(keys)
+            keys = strip_operand_brackets(keys)
+            if cls == "oracle":
+                keys = [("word", "EXCEPT") if k == ("word", "MINUS") else k for k in keys]
+            if base is None:
+                base = (cls, keys, sql)
+            elif keys != base[1]:
+                out.append((mksig("setop_grouping", cls, case["shape"]), "%s vs %s: %r vs %r - the operands are grouped differently" % (base[0], cls, base[2], sql)))
+                return out
+    # the generic rendering itself: a nested operand is one bracketed unit (checked on the normalised stream: brackets around a compound stay)
+    nested = case["shape"] != "chain"
+    if nested and not any(base[1][i] == ("punct", "(") and _compound(base[1][i + 1:_close(base[1], i)]) for i in range(len(base[1]))):
+        out.append((mksig("setop_grouping", "all", case["shape"], "no_unit"), "%r: the nested operand is not one bracketed unit" % base[2]))
+    return out
+
+
+def _close(keys, i):
+    d = 0
+    for j in range(i, len(keys)):
+        if keys[j] == ("punct", "("):
+            d += 1
+        elif keys[j] == ("punct", ")"):
+            d -= 1
+            if d == 0:
+                return j
+    return len(keys)
 
 
 def has_aliased_groupby(p):
@@ -147,7 +271,10 @@ def check_neutral(p):
             if sql.startswith("EXC:"):
                 keys = sql
             else:
-                keys = strip_operand_brackets(norm(lex.lex(sql, cls)))
+                keys = norm(lex.lex(sql, cls))
+                if cls == "sqlite":
+                    keys = sqlite_compound_operands(keys)
+                keys = strip_operand_brackets(keys)
             if groupby_aliased and cls in NO_GROUPBY_ALIAS:
                 continue
             if base is None:
@@ -514,6 +641,8 @@ def cells():
 def check_case(case):
     if case.get("mode") == "ddl":
         return check_ddl(case)
+    if case.get("mode") == "grouping":
+        return check_grouping(case)
     if case.get("mode") == "cell":
         r = check_cell(case["cls"], case["pos"], case["term"], case["inner"], case["par"])
         if r is None:
@@ -531,6 +660,8 @@ def valid_case(case):
     try:
         if case.get("mode") == "ddl":
             return case in list(ddl_cases())
+        if case.get("mode") == "grouping":
+            return case in list(grouping_cases())
         if case.get("mode") == "cell":
             return case["cls"] in CTXS and case["pos"] in POSITIONS and case["term"] in TERMS and case["inner"] in ("inherit", "generic") and case["par"] in (False, True)
         prog.build_program(dict(case["program"], cls="generic"), force_cls="generic")
@@ -540,7 +671,7 @@ def valid_case(case):
 
 
 def shards(tier, sd):
-    out = [("matrix", tier, c) for c in CTXS] + [("ddl", tier, 0)]
+    out = [("matrix", tier, c) for c in CTXS] + [("ddl", tier, 0), ("grouping", tier, 0)]
     n = 6 if tier == "quick" else 24
     out += [("neutral", tier, sd * 1000 + k) for k in range(n)]
     return out
@@ -553,6 +684,12 @@ def run_shard(shard):
         for case in ddl_cases():
             col.case(case, True, classes=("ddl:" + case["name"],))
             for sig, detail in check_ddl(case):
+                col.violation(sig, case, detail)
+        return col
+    if kind == "grouping":
+        for case in grouping_cases():
+            col.case(case, case["shape"] != "chain", classes=("grouping:" + case["shape"],))
+            for sig, detail in check_grouping(case):
                 col.violation(sig, case, detail)
         return col
     if kind == "matrix":
